@@ -8,8 +8,11 @@ TEMPLATE = open(os.path.join(os.path.dirname(__file__), 'seedprompt.tmpl')).read
 props = [json.loads(l) for l in open('/verif/properties.jsonl')]
 os.makedirs('/tmp/wt', exist_ok=True)
 os.makedirs('/tmp/wt_out', exist_ok=True)
+only = set(sys.argv[2:])
 for p in props:
     pid = p['id']
+    if only and pid not in only:
+        continue
     wid = pid + suffix
     existing = []
     for m in sorted(glob.glob(f'/verif/seeded/S*-{pid}-*/meta.json')):
